@@ -144,7 +144,8 @@ def answer(fn):
 
 
 # ---- memo vector ------------------------------------------------------------------------------------------------------
-LAZY = ("_sequence", "_single_interval_store", "_is_overlapping", "_strand_property", "_chunk_relative_codon_locations_cached")
+LAZY = ("_sequence", "_single_interval_store", "_is_overlapping", "_strand_property", "_chunk_relative_codon_locations_cached",
+        "_alternative_sequence", "_parent_with_alternative_sequence", "_alternative_genomic_sequence")
 
 
 def memo_vector(obj, seen=None, depth=0):
@@ -251,6 +252,11 @@ def build(spec, alias=False):
         f2 = lib.mk_feat([tuple(spec["exons"][0])], spec["strand"], par, sequence_name="chrV", feature_name="f2", feature_types=["b"])
         return FeatureIntervalCollection([f1, f2], feature_collection_name="fc", feature_collection_id="fcid", sequence_name="chrV",
                                          qualifiers={"k": ["fc-own"], "feature_collection_name": ["fcalias"]}, parent_or_seq_chunk_parent=par)
+    if k == "variant":
+        return VariantInterval(start=spec["s"], end=spec["e"], sequence=spec["alt"], variant_type="x", variant_name="v", qualifiers={"k": ["v"]}, parent_or_seq_chunk_parent=par)
+    if k == "vcoll":
+        vs = [VariantInterval(start=a, end=b, sequence=alt, variant_type="x", parent_or_seq_chunk_parent=par) for a, b, alt in spec["vs"]]
+        return VariantIntervalCollection(vs, variant_collection_id="vc", sequence_name="chrV", qualifiers={"k": ["vc-own"]}, parent_or_seq_chunk_parent=par)
     if k == "ac":
         gene = build(dict(spec, kind="gene"), alias)
         fc = build(dict(spec, kind="fcoll", exons=[[14, 17], [19, 22]]), alias)
@@ -289,6 +295,10 @@ def catalogue(tier):
         out.append(dict(kind="gene", exons=[[0, 5], [7, 14]], strand=s, cds=[1, 11]))
         out.append(dict(kind="fcoll", exons=[[0, 5], [7, 14]], strand=s))
     out.append(dict(kind="gene", exons=[[0, 5], [7, 14]], strand="+", cds=[1, 11], parent=(0, 20)))
+    out.append(dict(kind="variant", s=3, e=5, alt="G"))
+    out.append(dict(kind="variant", s=3, e=4, alt="GTT", parent=(1, 15)))
+    out.append(dict(kind="vcoll", vs=[[2, 3, "T"], [6, 8, ""]]))
+    out.append(dict(kind="vcoll", vs=[[4, 5, "AC"]], parent=(2, 14)))
     out.append(dict(kind="ac", exons=[[0, 5], [7, 12]], strand="+", cds=[1, 10]))
     out.append(dict(kind="ac", exons=[[0, 5], [7, 12]], strand="-", cds=[1, 10], parent=(0, 24)))
     out.append(dict(kind="ac", exons=[[0, 5], [7, 12]], strand="+", cds=[1, 10], variants=True))
@@ -398,6 +408,12 @@ def menu_ops(obj):
         ops["children.qualifiers"] = lambda o: [c.qualifiers for c in o.iter_children()]
         ops["query_by_guids(first)"] = lambda o: o.query_by_guids([next(iter(o.iter_children())).guid])
         ops["hash"] = lambda o: hash(o)
+    if isinstance(obj, (VariantInterval, VariantIntervalCollection)):
+        tgt = lib.mk_loc(((1, 4), (6, 11)), "-")
+        ops["lift_over_location(L)"] = lambda o: o.lift_over_location(tgt)
+        ops["lift_over_location(L2)"] = lambda o: o.lift_over_location(lib.mk_loc(((9, 12),), "+"))
+        ops["hash"] = lambda o: hash(o)
+        ops["to_dict(chunk)"] = lambda o: o.to_dict(chromosome_relative_coordinates=False)
     if isinstance(obj, AnnotationCollection):
         ops["query(2,13,strict)"] = lambda o: o.query_by_position(2, 13)
         ops["query(2,13,relaxed)"] = lambda o: o.query_by_position(2, 13, completely_within=False)
